@@ -4,8 +4,7 @@ Import ListNotations.
 From BT Require Import Base.Bytes Model.Keys Model.Decoder.
 From BTGen Require Consts.
 
-(* a read returns bytes, or an error, or - io.Reader allows it - bytes TOGETHER with an error (ChunkErr): those bytes are
-   decoded like any other read's before the reader stops with the error *)
+(* a read returns bytes, or an error, or - io.Reader allows it - bytes TOGETHER with an error (ChunkErr) *)
 Inductive chunk := Chunk (bs : bytes) | ReadErr | ChunkErr (bs : bytes).
 
 Inductive stop := StopErr | StopCancelled | StopScriptEnd | StopPanic | StopFuel.
@@ -50,21 +49,24 @@ Fixpoint inner (fuel : nat) (b : bytes) (more : bool) (sent : nat) (cancel : opt
 
 Record rd_result := { rd_out : list (msg * bytes); rd_left : bytes; rd_why : stop }.
 
+Definition read_end (left bs : bytes) (sent : nat) (cancel : option nat) : rd_result :=
+  let b := left ++ bs in
+  let fin o l := {| rd_out := o; rd_left := l; rd_why := StopErr |} in
+  match inner (length b) b false sent cancel with
+  | IDone o _ => fin o []
+  | ILeft o _ r => fin o r
+  | ICancel o => {| rd_out := o; rd_left := []; rd_why := StopCancelled |}
+  | IPanic o => {| rd_out := o; rd_left := []; rd_why := StopPanic |}
+  | IFuel => {| rd_out := []; rd_left := []; rd_why := StopFuel |}
+  end.
+
 Fixpoint reader_from (script : list chunk) (left : bytes) (sent : nat) (cancel : option nat) : rd_result :=
   match script with
   | [] => {| rd_out := []; rd_left := left; rd_why := StopScriptEnd |}
-  | ReadErr :: _ => {| rd_out := []; rd_left := left; rd_why := StopErr |}
-  | ChunkErr bs :: _ =>
-    let b := left ++ bs in
-    let more := Nat.eqb (length bs) buf_size in
-    let fin o l := {| rd_out := o; rd_left := l; rd_why := StopErr |} in
-    match inner (length b) b more sent cancel with
-    | IDone o _ => fin o []
-    | ILeft o _ r => fin o r
-    | ICancel o => {| rd_out := o; rd_left := []; rd_why := StopCancelled |}
-    | IPanic o => {| rd_out := o; rd_left := []; rd_why := StopPanic |}
-    | IFuel => {| rd_out := []; rd_left := []; rd_why := StopFuel |}
-    end
+  (* the input has ended (an error that is not a cancellation): nothing more will follow, so what was held back - and
+     the bytes that came together with the error - are decoded as they stand (more = false), then the reader stops *)
+  | ReadErr :: _ => read_end left [] sent cancel
+  | ChunkErr bs :: _ => read_end left bs sent cancel
   | Chunk bs :: rest =>
     let b := left ++ bs in
     let more := Nat.eqb (length bs) buf_size in
